@@ -8,8 +8,12 @@ For every choice tape (`Drv`, i.e. every sequence of answers of the bolero drive
 * released ++ remaining is a permutation of what was pending (nothing lost, nothing twice);
 * the snapshots a `SingletonHook` releases never go back to an older version, over every history
   of pushes and decisions;
-* a tick/observation the scheduler may run (`tickCanRun`) whose hooks are idle releases at least
-  one new item or snapshot (`run_hooks` two-pass forcing logic).
+* a tick/observation the scheduler may run (`tickCanRun`) whose hooks are idle and well-formed is
+  resolved by `run_hooks` without a panic and releases at least one new item or snapshot
+  (`runHooks_runnable_tick_releases`; F36 — the empty `PassthroughSingletonHook` buffer — is fixed in
+  /repo and the model follows the fixed code);
+* `run_hooks` acts hook by hook (`runHooks_is_hookwise`), so the per-hook clauses hold for every
+  component of its result (`runHooks_nothing_lost_nothing_twice`).
 -/
 import HvSim.Model.Sim
 import HvSim.Model.Inline
@@ -499,6 +503,59 @@ def SHistInv (h : SHist β) : Prop :=
   (h.released.map Prod.fst).Pairwise (· ≤ ·) ∧
   (∀ r ∈ h.released, ∃ l, h.st.last = some l ∧ r.1 ≤ l.1)
 
+/-- releasing `x` — the last released snapshot again (buffer untouched) or a buffered one (everything
+up to it leaves the buffer) — keeps the history invariant; shared by `SingletonHook` and
+`PassthroughSingletonHook` -/
+theorem aux_release_inv {h : SHist β} {s2 : SingSt (Nat × β)} {x : Nat × β}
+    (hi : SHistInv h) (hlast : s2.last = some x)
+    (hshape : (h.st.last = some x ∧ s2.q = h.st.q) ∨ (∃ skipped, h.st.q = skipped ++ x :: s2.q)) :
+    SHistInv { h with st := s2, released := h.released ++ [x] } := by
+  obtain ⟨i1, i2, i3, i4, i5⟩ := hi
+  rcases hshape with ⟨hold, hq⟩ | ⟨skipped, hq⟩
+  · -- the last released snapshot again
+    obtain ⟨a, b'⟩ := i3 x hold
+    refine ⟨by simpa [hq] using i1, by simpa [hq] using i2, ?_, ?_, ?_⟩
+    · intro l hl; simp only [hlast, Option.some.injEq] at hl; subst hl
+      exact ⟨a, by simpa [hq] using b'⟩
+    · simp only [List.map_append, List.map_cons, List.map_nil, List.pairwise_append, List.pairwise_cons,
+        List.not_mem_nil, false_imp_iff, implies_true, List.Pairwise.nil, and_self, List.mem_map,
+        List.mem_cons, or_false, forall_exists_index, and_imp, true_and]
+      refine ⟨i4, ?_⟩
+      intro a' r hr har b'' hb''; subst har; subst hb''
+      obtain ⟨l, hl, hle⟩ := i5 r hr
+      simp only [hold, Option.some.injEq] at hl; subst hl; exact hle
+    · intro r hr
+      simp only [List.mem_append, List.mem_cons, List.not_mem_nil, or_false] at hr
+      refine ⟨x, hlast, ?_⟩
+      rcases hr with hr | rfl
+      · obtain ⟨l, hl, hle⟩ := i5 r hr
+        simp only [hold, Option.some.injEq] at hl; subst hl; exact hle
+      · exact Nat.le_refl _
+  · -- a buffered snapshot: everything before it is skipped
+    rw [hq] at i1 i2 i3
+    simp only [List.map_append, List.map_cons, List.pairwise_append, List.pairwise_cons, List.mem_map,
+      forall_exists_index, and_imp, List.mem_cons] at i1
+    obtain ⟨_, ⟨hx_lt, hrest⟩, _⟩ := i1
+    have hxnext : x.1 < h.next := i2 x (by simp)
+    have hlastle : ∀ l, h.st.last = some l → l.1 < x.1 := fun l hl => (i3 l hl).2 x (by simp)
+    refine ⟨hrest, fun y hy => i2 y (by simp [hy]), ?_, ?_, ?_⟩
+    · intro l hl; simp only [hlast, Option.some.injEq] at hl; subst hl
+      exact ⟨hxnext, fun y hy => hx_lt y.1 y hy rfl⟩
+    · simp only [List.map_append, List.map_cons, List.map_nil, List.pairwise_append, List.pairwise_cons,
+        List.not_mem_nil, false_imp_iff, implies_true, List.Pairwise.nil, and_self, List.mem_map,
+        List.mem_cons, or_false, forall_exists_index, and_imp, true_and]
+      refine ⟨i4, ?_⟩
+      intro a' r hr har b'' hb''; subst har; subst hb''
+      obtain ⟨l, hl, hle⟩ := i5 r hr
+      exact Nat.le_trans hle (Nat.le_of_lt (hlastle l hl))
+    · intro r hr
+      simp only [List.mem_append, List.mem_cons, List.not_mem_nil, or_false] at hr
+      refine ⟨x, hlast, ?_⟩
+      rcases hr with hr | rfl
+      · obtain ⟨l, hl, hle⟩ := i5 r hr
+        exact Nat.le_trans hle (Nat.le_of_lt (hlastle l hl))
+      · exact Nat.le_refl _
+
 theorem aux_sStep_inv {h h' : SHist β} {op : SOp β} (hi : SHistInv h) (hs : sStep h op = some h') :
     SHistInv h' := by
   obtain ⟨i1, i2, i3, i4, i5⟩ := hi
@@ -536,50 +593,10 @@ theorem aux_sStep_inv {h h' : SHist β} {op : SOp β} (hi : SHistInv h) (hs : sS
         simp only [Option.some.injEq] at hs
         subst hs
         obtain ⟨hlast, _, hshape, _⟩ := singleton_release_shape hauto hrel
-        rcases hshape with ⟨_, hold, hq⟩ | ⟨_, skipped, hq⟩
-        · -- the last released snapshot again
-          obtain ⟨a, b'⟩ := i3 x hold
-          refine ⟨by simpa [hq] using i1, by simpa [hq] using i2, ?_, ?_, ?_⟩
-          · intro l hl; simp only [hlast, Option.some.injEq] at hl; subst hl
-            exact ⟨a, by simpa [hq] using b'⟩
-          · simp only [List.map_append, List.map_cons, List.map_nil, List.pairwise_append, List.pairwise_cons,
-              List.not_mem_nil, false_imp_iff, implies_true, List.Pairwise.nil, and_self, List.mem_map,
-              List.mem_cons, or_false, forall_exists_index, and_imp, true_and]
-            refine ⟨i4, ?_⟩
-            intro a' r hr har b'' hb''; subst har; subst hb''
-            obtain ⟨l, hl, hle⟩ := i5 r hr
-            simp only [hold, Option.some.injEq] at hl; subst hl; exact hle
-          · intro r hr
-            simp only [List.mem_append, List.mem_cons, List.not_mem_nil, or_false] at hr
-            refine ⟨x, hlast, ?_⟩
-            rcases hr with hr | rfl
-            · obtain ⟨l, hl, hle⟩ := i5 r hr
-              simp only [hold, Option.some.injEq] at hl; subst hl; exact hle
-            · exact Nat.le_refl _
-        · -- a buffered snapshot: everything before it is skipped
-          rw [hq] at i1 i2 i3
-          simp only [List.map_append, List.map_cons, List.pairwise_append, List.pairwise_cons, List.mem_map,
-            forall_exists_index, and_imp, List.mem_cons] at i1
-          obtain ⟨_, ⟨hx_lt, hrest⟩, _⟩ := i1
-          have hxnext : x.1 < h.next := i2 x (by simp)
-          have hlastle : ∀ l, h.st.last = some l → l.1 < x.1 := fun l hl => (i3 l hl).2 x (by simp)
-          refine ⟨hrest, fun y hy => i2 y (by simp [hy]), ?_, ?_, ?_⟩
-          · intro l hl; simp only [hlast, Option.some.injEq] at hl; subst hl
-            exact ⟨hxnext, fun y hy => hx_lt y.1 y hy rfl⟩
-          · simp only [List.map_append, List.map_cons, List.map_nil, List.pairwise_append, List.pairwise_cons,
-              List.not_mem_nil, false_imp_iff, implies_true, List.Pairwise.nil, and_self, List.mem_map,
-              List.mem_cons, or_false, forall_exists_index, and_imp, true_and]
-            refine ⟨i4, ?_⟩
-            intro a' r hr har b'' hb''; subst har; subst hb''
-            obtain ⟨l, hl, hle⟩ := i5 r hr
-            exact Nat.le_trans hle (Nat.le_of_lt (hlastle l hl))
-          · intro r hr
-            simp only [List.mem_append, List.mem_cons, List.not_mem_nil, or_false] at hr
-            refine ⟨x, hlast, ?_⟩
-            rcases hr with hr | rfl
-            · obtain ⟨l, hl, hle⟩ := i5 r hr
-              exact Nat.le_trans hle (Nat.le_of_lt (hlastle l hl))
-            · exact Nat.le_refl _
+        refine aux_release_inv ⟨i1, i2, i3, i4, i5⟩ hlast ?_
+        rcases hshape with ⟨_, a, b⟩ | ⟨_, c⟩
+        · exact Or.inl ⟨a, b⟩
+        · exact Or.inr c
 
 theorem aux_sRun_inv (ops : List (SOp β)) : ∀ (h : SHist β), SHistInv h → SHistInv (sRun h ops) := by
   induction ops with
@@ -963,12 +980,14 @@ theorem hook_forced_decision_is_nontrivial [DecidableEq κ] (h : Hook κ α) {d 
     · split at hh
       · simp at hh
       · simp only [Option.some.injEq, Prod.mk.injEq] at hh; exact hh.1.symm
-  | passthrough q r =>
-    simp only [Hook.auto, passthroughAuto, Option.some.injEq, Prod.mk.injEq] at ha
-    simp only [Hook.canNT, Bool.not_eq_true'] at hc
-    cases hl : q.getLast? with
-    | none => simp [List.getLast?_eq_none_iff] at hl; subst hl; simp at hc
-    | some x => simp [hl] at ha; exact ha.1
+  | passthrough q r last =>
+    simp only [Hook.auto, Option.map_eq_some_iff] at ha
+    obtain ⟨⟨nt1, q1, r1⟩, hh, heq⟩ := ha
+    simp only [Prod.mk.injEq] at heq; obtain ⟨rfl, _⟩ := heq
+    unfold passthroughAuto at hh
+    split at hh
+    · simp only [Option.some.injEq, Prod.mk.injEq] at hh; exact hh.1.symm
+    · simp at hh
   | keyedSingleton m r last =>
     simp only [Hook.auto, Option.map_eq_some_iff] at ha
     obtain ⟨⟨r1, m1, l1, nt1, d1⟩, hh, heq⟩ := ha
@@ -1065,33 +1084,15 @@ theorem hook_forced_decision_is_nontrivial [DecidableEq κ] (h : Hook κ α) {d 
 theorem aux_release_none [DecidableEq κ] (h : Hook κ α) (hc : h.cur = none) : h.release = none := by
   cases h <;> simp_all [Hook.cur, Hook.release, relNonempty, singletonRelease]
 
-/-- a hook on which `autonomous_decision` never leaves a decision (an empty passthrough buffer) -/
-def Stuck [DecidableEq κ] (h : Hook κ α) : Prop := ∀ d f, h.auto d f = some (false, h, d)
-
+/-- `autonomous_decision` always records a decision (since the F36 fix this holds for every hook
+kind, `PassthroughSingletonHook` included) -/
 theorem aux_auto_cur [DecidableEq κ] (h : Hook κ α) {d d' : Drv} {f nt : Bool} {h' : Hook κ α}
-    (hc : h.cur = none) (ha : h.auto d f = some (nt, h', d')) :
-    h'.cur.isSome = true ∨ (h' = h ∧ h.canNT = false ∧ Stuck h) := by
+    (ha : h.auto d f = some (nt, h', d')) : h'.cur.isSome = true := by
   cases h with
-  | passthrough q r =>
-    simp only [Hook.cur, Option.map_eq_none_iff] at hc
-    subst hc
-    simp only [Hook.auto, passthroughAuto, Option.some.injEq, Prod.mk.injEq] at ha
-    cases hl : q.getLast? with
-    | none =>
-      simp only [hl] at ha
-      obtain ⟨_, rfl, _⟩ := ha
-      have hq : q = [] := by simpa [List.getLast?_eq_none_iff] using hl
-      subst hq
-      exact Or.inr ⟨rfl, by simp [Hook.canNT], fun d f => by simp [Hook.auto, passthroughAuto]⟩
-    | some x =>
-      simp only [hl] at ha
-      obtain ⟨_, rfl, _⟩ := ha
-      exact Or.inl (by simp [Hook.cur])
   | singleton s =>
     simp only [Hook.auto, Option.map_eq_some_iff] at ha
     obtain ⟨⟨nt1, s1, d1⟩, hh, heq⟩ := ha
     simp only [Prod.mk.injEq] at heq; obtain ⟨_, rfl, _⟩ := heq
-    left
     unfold singletonAuto at hh
     simp only [Hook.cur]
     repeat' split at hh
@@ -1102,10 +1103,10 @@ theorem aux_auto_cur [DecidableEq κ] (h : Hook κ α) {d d' : Drv} {f nt : Bool
     simp only [Hook.auto, Option.map_eq_some_iff] at ha
     obtain ⟨x, _, heq⟩ := ha
     simp only [Prod.mk.injEq] at heq; obtain ⟨_, rfl, _⟩ := heq
-    exact Or.inl (by simp [Hook.cur, relNonempty])
+    simp [Hook.cur, relNonempty]
 
-def QInv [DecidableEq κ] (hs : List (Hook κ α)) : Prop :=
-  ∀ h ∈ hs, h.cur = none → h.canNT = true ∨ Stuck h
+def QInv (hs : List (Hook κ α)) : Prop :=
+  ∀ h ∈ hs, h.cur = none → h.canNT = true
 
 /-- hooks still waiting for an autonomous decision that can be non-trivial -/
 def undecided (hs : List (Hook κ α)) : Nat := (hs.filter (fun h => h.cur.isNone && h.canNT)).length
@@ -1148,41 +1149,27 @@ theorem aux_pass2 [DecidableEq κ] : ∀ (hs : List (Hook κ α)) (made : Bool) 
       | some res =>
         obtain ⟨nt, h1, d1⟩ := res
         simp only [ha] at hrun
-        rcases hq h (List.mem_cons_self ..) hc with hcan | hstuck
-        · have hu : undecided (h :: rest) = undecided rest + 1 := by simp [undecided, hc, hcan]
-          have hne : (rem == 0) = false := by rw [hrem, hu]; simp
-          simp only [hne, Bool.false_eq_true, ↓reduceIte] at hrun
-          split at hrun
+        have hcan := hq h (List.mem_cons_self ..) hc
+        have hu : undecided (h :: rest) = undecided rest + 1 := by simp [undecided, hc, hcan]
+        have hne : (rem == 0) = false := by rw [hrem, hu]; simp
+        simp only [hne, Bool.false_eq_true, ↓reduceIte] at hrun
+        split at hrun
+        · simp at hrun
+        · split at hrun
           · simp at hrun
-          · split at hrun
-            · simp at hrun
-            · rename_i hrec
-              simp only [Option.some.injEq, Prod.mk.injEq] at hrun
-              obtain ⟨_, _, rfl, _⟩ := hrun
-              refine ih (made || nt) (rem - 1) d1 hqrest (by rw [hrem, hu]; simp) hrec ?_
-              cases hmade : made with
-              | true => simp
-              | false =>
-                by_cases hz : undecided rest = 0
-                · left
-                  have hforce : (!made && rem == 1) = true := by rw [hmade, hrem, hu, hz]; simp
-                  rw [hforce] at ha
-                  simp [hook_forced_decision_is_nontrivial h hcan ha]
-                · right; omega
-        · -- an undecidable hook: its release panics
-          have := hstuck d (!made && rem == 1)
-          rw [this] at ha
-          simp only [Option.some.injEq, Prod.mk.injEq] at ha
-          obtain ⟨_, rfl, _⟩ := ha
-          split at hrun
-          · simp at hrun
-          · rename_i hstep
-            split at hstep
-            · simp at hstep
-            · simp only [Option.some.injEq, Prod.mk.injEq] at hstep
-              obtain ⟨rfl, _⟩ := hstep
-              rw [aux_release_none _ hc] at hrun
-              simp at hrun
+          · rename_i hrec
+            simp only [Option.some.injEq, Prod.mk.injEq] at hrun
+            obtain ⟨_, _, rfl, _⟩ := hrun
+            refine ih (made || nt) (rem - 1) d1 hqrest (by rw [hrem, hu]; simp) hrec ?_
+            cases hmade : made with
+            | true => simp
+            | false =>
+              by_cases hz : undecided rest = 0
+              · left
+                have hforce : (!made && rem == 1) = true := by rw [hmade, hrem, hu, hz]; simp
+                rw [hforce] at ha
+                simp [hook_forced_decision_is_nontrivial h hcan ha]
+              · right; omega
 
 theorem aux_pass1 [DecidableEq κ] : ∀ (hs : List (Hook κ α)) (made : Bool) (rem : Nat) (d : Drv)
     {hs1 : List (Hook κ α)} {made1 : Bool} {rem1 : Nat} {d1 : Drv},
@@ -1215,27 +1202,18 @@ theorem aux_pass1 [DecidableEq κ] : ∀ (hs : List (Hook κ α)) (made : Bool) 
           obtain ⟨rfl, rfl, rfl, _⟩ := hrun
           obtain ⟨i1, i2, i3, i4⟩ := ih made (rem - 1) d2 hidle' hrec
           have hcc : canCount (h :: rest) = canCount rest := by simp [canCount, hcan]
-          rcases aux_auto_cur h hc ha with hsome | ⟨rfl, _, hst⟩
-          · refine ⟨i1, ?_, ?_, ?_⟩
-            · intro x hx hxc
-              simp only [List.mem_cons] at hx
-              rcases hx with rfl | hx
-              · simp [hxc] at hsome
-              · exact i2 x hx hxc
-            · have : (h'.cur.isNone && h'.canNT) = false := by
-                cases hh : h'.cur <;> simp_all
-              simp only [undecided, List.filter_cons, this, Bool.false_eq_true, ↓reduceIte] at i3 ⊢
-              rw [hcc]; exact i3
-            · rw [i4, hcc]; simp only [List.length_cons]; omega
-          · refine ⟨i1, ?_, ?_, ?_⟩
-            · intro x hx hxc
-              simp only [List.mem_cons] at hx
-              rcases hx with rfl | hx
-              · exact Or.inr hst
-              · exact i2 x hx hxc
-            · simp only [undecided, List.filter_cons, hcan, Bool.and_false, Bool.false_eq_true, ↓reduceIte] at i3 ⊢
-              rw [hcc]; exact i3
-            · rw [i4, hcc]; simp only [List.length_cons]; omega
+          have hsome := aux_auto_cur h ha
+          refine ⟨i1, ?_, ?_, ?_⟩
+          · intro x hx hxc
+            simp only [List.mem_cons] at hx
+            rcases hx with rfl | hx
+            · simp [hxc] at hsome
+            · exact i2 x hx hxc
+          · have : (h'.cur.isNone && h'.canNT) = false := by
+              cases hh : h'.cur <;> simp_all
+            simp only [undecided, List.filter_cons, this, Bool.false_eq_true, ↓reduceIte] at i3 ⊢
+            rw [hcc]; exact i3
+          · rw [i4, hcc]; simp only [List.length_cons]; omega
     | true =>
       simp only [hcan, Bool.not_true, Bool.false_eq_true, ↓reduceIte] at hrun
       split at hrun
@@ -1249,7 +1227,7 @@ theorem aux_pass1 [DecidableEq κ] : ∀ (hs : List (Hook κ α)) (made : Bool) 
         · intro x hx hxc
           simp only [List.mem_cons] at hx
           rcases hx with rfl | hx
-          · exact Or.inl hcan
+          · exact hcan
           · exact i2 x hx hxc
         · simp only [undecided, List.filter_cons, hc, Option.isNone_none, hcan, Bool.and_self, ↓reduceIte,
             List.length_cons] at i3 ⊢
@@ -1493,7 +1471,7 @@ def Hook.pending : Hook κ α → List (Option κ × α)
   | .keyedTotal m _ => tagK (kmItems m)
   | .keyedNo m _ => tagK (kmItems m)
   | .singleton s => tagN s.q
-  | .passthrough q _ => tagN q
+  | .passthrough q _ _ => tagN q
   | .keyedSingleton m _ _ => tagK (kmItems m)
   | .tlOrder q _ => tagN q
   | .tlFold q _ => tagN q
@@ -1505,7 +1483,7 @@ def Hook.pending : Hook κ α → List (Option κ × α)
 /-- hooks that release stream items (every kind except the snapshot hooks, which drop skipped versions by design) -/
 def Hook.streamLike : Hook κ α → Bool
   | .singleton _ => false
-  | .passthrough _ _ => false
+  | .passthrough _ _ _ => false
   | .keyedSingleton _ _ _ => false
   | _ => true
 
@@ -1638,7 +1616,7 @@ theorem released_plus_remaining_perm [DecidableEq κ] [DecidableEq α] (h : Hook
     (hr : h1.release = some (h2, out)) : (msgItems out ++ h2.pending).Perm h.pending := by
   cases h with
   | singleton s => simp [Hook.streamLike] at hs
-  | passthrough q r => simp [Hook.streamLike] at hs
+  | passthrough q r l => simp [Hook.streamLike] at hs
   | keyedSingleton m r l => simp [Hook.streamLike] at hs
   | streamTotal q r =>
     simp only [Hook.auto, Option.map_eq_some_iff] at ha
@@ -1948,28 +1926,812 @@ example : keyedSingLoop (κ := Nat) (α := Nat × Nat) [(7, [(1, 10), (2, 20)]),
     = some ([(7, (2, 20), true), (9, (0, 5), false)], [(7, []), (9, [])], [(9, (0, 5)), (7, (2, 20))], true,
         ⟨[], [.u 0 1 1, .b false]⟩) := by rfl
 
-/-! ### F36: the unconditional form of the clause is refuted by the code that exists -/
+/-! ### F36 (fixed): `run_hooks` on a runnable tick never panics and releases for every hook -/
 
-/-- "every tick the scheduler may run completes `run_hooks` with a release" fails: a tick made of a
-batch hook with pending items and a `PassthroughSingletonHook` (snapshot of a top-level commutative
-fold) whose buffer is empty — the state after that tick ran once — is runnable (`SimTick::can_run`),
-its hooks are idle, and `run_hooks` panics for *every* tape (the passthrough hook records no
-decision; `release_decision` then panics).  Known finding F36; `runHooks_some_nontrivial` above is the
-clause for the runs that complete. -/
-theorem runHooks_runnable_tick_panics_refuted :
-    let hs : List (Hook Nat Nat) := [.streamTotal [20] none, .passthrough [] none]
-    tickCanRun hs = true ∧ (∀ h ∈ hs, h.cur = none) ∧ ∀ d, runHooks hs d = none := by
-  refine ⟨by decide, by decide, ?_⟩
-  intro d
-  simp only [runHooks, runPass1, Hook.cur, relNonempty, Option.map_none, Hook.canNT, List.isEmpty_cons,
-    Bool.not_false, Bool.not_true, Bool.false_eq_true, ↓reduceIte, List.isEmpty_nil, Hook.auto, passthroughAuto,
-    List.getLast?_nil, List.length_cons, List.length_nil, Nat.zero_add, Nat.reduceAdd, Nat.add_one_sub_one]
-  simp only [runPass2, Hook.cur, relNonempty, Option.map_none, Bool.not_false, BEq.rfl, Bool.and_self, Hook.auto]
-  cases hst : streamTotalAuto [20] d true with
-  | none => simp
-  | some r =>
-    obtain ⟨rel, q', nt, d1⟩ := r
-    simp [Hook.release, passthroughAuto]
+theorem aux_nat_some (d : Drv) {lo hi : Nat} (h : lo ≤ hi) : ∃ v d', d.nat lo hi = some (v, d') := by
+  unfold Drv.nat
+  have : ¬ hi < lo := by omega
+  simp [this]
+
+theorem aux_natEx_some (d : Drv) {lo hi : Nat} (h : lo < hi) : ∃ v d', d.natEx lo hi = some (v, d') := by
+  unfold Drv.natEx
+  have : ¬ hi ≤ lo := by omega
+  simp only [this, ↓reduceIte]
+  exact aux_nat_some d (by omega)
+
+theorem aux_getElem?_some (q : List α) {i : Nat} (h : i < q.length) : ∃ x, q[i]? = some x :=
+  ⟨q[i], List.getElem?_eq_getElem h⟩
+
+theorem aux_streamNoLoop_total : ∀ (fuel : Nat) (force : Bool) (q out : List α) (mi : Nat) (d : Drv),
+    (q ≠ [] → mi < q.length) → ∃ r, streamNoLoop fuel force q out mi d = some r := by
+  intro fuel
+  induction fuel with
+  | zero => intro force q out mi d _; exact ⟨_, rfl⟩
+  | succ n ih =>
+    intro force q out mi d hmi
+    unfold streamNoLoop
+    split
+    · exact ⟨_, rfl⟩
+    · rename_i hq
+      have hqne : q ≠ [] := by intro h; subst h; simp at hq
+      rcases hb : d.boolIf (!(force && out.isEmpty)) with ⟨stop, d1⟩
+      simp only [hb]
+      split
+      · exact ⟨_, rfl⟩
+      · obtain ⟨idx, d2, hidx⟩ := aux_natEx_some d1 (hmi hqne)
+        have hr := aux_natEx_range hidx
+        obtain ⟨x, hx⟩ := aux_getElem?_some q hr.2
+        simp only [hidx, hx]
+        split
+        · exact ⟨_, rfl⟩
+        · rename_i hne
+          apply ih
+          intro _
+          have hl : (q.eraseIdx idx).length = q.length - 1 := by rw [List.length_eraseIdx]; simp [hr.2]
+          simp only [beq_iff_eq] at hne
+          omega
+
+theorem aux_keyedNoInner_total : ∀ (fuel : Nat) (force : Bool) (remaining : Nat) (q out : List α) (mi : Nat) (d : Drv),
+    (q ≠ [] → mi < q.length) → ∃ r, keyedNoInner fuel force remaining q out mi d = some r := by
+  intro fuel
+  induction fuel with
+  | zero => intro force remaining q out mi d _; exact ⟨_, rfl⟩
+  | succ n ih =>
+    intro force remaining q out mi d hmi
+    unfold keyedNoInner
+    split
+    · exact ⟨_, rfl⟩
+    · rename_i hq
+      have hqne : q ≠ [] := by intro h; subst h; simp at hq
+      rcases hb : d.boolIf (!(force && remaining == 0)) with ⟨stop, d1⟩
+      simp only [hb]
+      split
+      · exact ⟨_, rfl⟩
+      · obtain ⟨idx, d2, hidx⟩ := aux_natEx_some d1 (hmi hqne)
+        have hr := aux_natEx_range hidx
+        obtain ⟨x, hx⟩ := aux_getElem?_some q hr.2
+        simp only [hidx, hx]
+        split
+        · exact ⟨_, rfl⟩
+        · rename_i hne
+          apply ih
+          intro _
+          have hl : (q.eraseIdx idx).length = q.length - 1 := by rw [List.length_eraseIdx]; simp [hr.2]
+          simp only [beq_iff_eq] at hne
+          omega
+
+theorem aux_keyedTotalLoop_total : ∀ (m : KMap κ α) (remaining : Nat) (force : Bool) (d : Drv),
+    ∃ r, keyedTotalLoop m remaining force d = some r := by
+  intro m
+  induction m with
+  | nil => intro remaining force d; exact ⟨_, rfl⟩
+  | cons e rest ih =>
+    obtain ⟨k, q⟩ := e
+    intro remaining force d
+    unfold keyedTotalLoop
+    split
+    · obtain ⟨r, hr⟩ := ih remaining force d
+      simp only [hr]; exact ⟨_, rfl⟩
+    · rename_i hq
+      have hlen : 1 ≤ q.length := by
+        cases q with
+        | nil => simp at hq
+        | cons _ _ => simp
+      obtain ⟨c, d1, hc⟩ := aux_nat_some d (lo := if (force && remaining - 1 == 0) = true then 1 else 0)
+        (hi := q.length) (by split <;> omega)
+      simp only [hc]
+      obtain ⟨r, hr⟩ := ih (remaining - 1) (if 0 < c then false else force) d1
+      simp only [hr]; exact ⟨_, rfl⟩
+
+theorem aux_keyedNoLoop_total : ∀ (m : KMap κ α) (remaining : Nat) (force : Bool) (d : Drv),
+    ∃ r, keyedNoLoop m remaining force d = some r := by
+  intro m
+  induction m with
+  | nil => intro remaining force d; exact ⟨_, rfl⟩
+  | cons e rest ih =>
+    obtain ⟨k, q⟩ := e
+    intro remaining force d
+    unfold keyedNoLoop
+    split
+    · obtain ⟨r, hr⟩ := ih remaining force d
+      simp only [hr]; exact ⟨_, rfl⟩
+    · rename_i hq
+      have hqne : q ≠ [] := by intro h; subst h; simp at hq
+      obtain ⟨⟨out, q', f', d1⟩, hin⟩ := aux_keyedNoInner_total q.length force (remaining - 1) q [] 0 d
+        (fun h => List.length_pos_iff.mpr h)
+      simp only [hin]
+      obtain ⟨r, hr⟩ := ih (remaining - 1) f' d1
+      simp only [hr]; exact ⟨_, rfl⟩
+
+theorem aux_lookup_insertKV_self [DecidableEq κ] (k : κ) (x : α) (last : List (κ × α)) :
+    lookup k (insertKV k x last) = some x := by
+  induction last with
+  | nil => simp [insertKV, lookup]
+  | cons e r ih =>
+    obtain ⟨k1, v1⟩ := e
+    unfold insertKV
+    split
+    · simp [lookup]
+    · rename_i h1; simp [lookup, h1, ih]
+
+theorem aux_lookup_insertKV_isSome [DecidableEq κ] (k k0 : κ) (x : α) (last : List (κ × α))
+    (h : (lookup k last).isSome = true) : (lookup k (insertKV k0 x last)).isSome = true := by
+  by_cases hk : k0 = k
+  · subst hk; simp [aux_lookup_insertKV_self]
+  · rw [aux_lookup_insertKV_ne k k0 x last hk]; exact h
+
+theorem aux_keyedSingLoop_total [DecidableEq κ] : ∀ (m : KMap κ α) (remaining : Nat) (force : Bool)
+    (last : List (κ × α)) (d : Drv),
+    (∀ e ∈ m, e.2 = [] → (lookup e.1 last).isSome = true) →
+    ∃ r, keyedSingLoop m remaining force last d = some r := by
+  intro m
+  induction m with
+  | nil => intro remaining force last d _; exact ⟨_, rfl⟩
+  | cons e rest ih =>
+    obtain ⟨k, q⟩ := e
+    intro remaining force last d hwf
+    have hwf' : ∀ e ∈ rest, e.2 = [] → (lookup e.1 last).isSome = true :=
+      fun e he => hwf e (List.mem_cons_of_mem _ he)
+    unfold keyedSingLoop
+    split
+    · rename_i hq
+      have hqe : q = [] := by simpa using hq
+      have := hwf (k, q) (List.mem_cons_self ..) hqe
+      obtain ⟨l, hl⟩ := Option.isSome_iff_exists.mp this
+      simp only at hl
+      simp only [hl]
+      obtain ⟨r, hr⟩ := ih remaining force last d hwf'
+      simp only [hr]; exact ⟨_, rfl⟩
+    · rename_i hq
+      rcases hsd : d.boolIf (!(force && remaining - 1 == 0) && (lookup k last).isSome) with ⟨rr, d1⟩
+      simp only [hsd]
+      split
+      · rename_i hrr
+        have hsome : (lookup k last).isSome = true := by
+          cases hl : (lookup k last).isSome with
+          | true => rfl
+          | false => simp [hl, Drv.boolIf] at hsd; simp_all
+        obtain ⟨l, hl⟩ := Option.isSome_iff_exists.mp hsome
+        simp only [hl]
+        obtain ⟨r, hr⟩ := ih (remaining - 1) force last d1 hwf'
+        simp only [hr]; exact ⟨_, rfl⟩
+      · rcases hsd2 : d1.boolIf (!(force && remaining - 1 == 0) && (lookup k last).isNone) with ⟨nr, d2⟩
+        simp only
+        split
+        · obtain ⟨r, hr⟩ := ih (remaining - 1) force last d2 hwf'
+          simp only [hr]; exact ⟨_, rfl⟩
+        · have hlen : 0 < q.length := by
+            cases q with
+            | nil => simp at hq
+            | cons _ _ => simp
+          obtain ⟨idx, d3, hidx⟩ := aux_natEx_some d2 hlen
+          have hr := aux_natEx_range hidx
+          simp only [hidx]
+          have hdrop : q.drop idx = q[idx] :: q.drop (idx + 1) := List.drop_eq_getElem_cons hr.2
+          simp only [hdrop]
+          obtain ⟨r, hr⟩ := ih (remaining - 1) false (insertKV k q[idx] last) d3
+            (fun e he he2 => aux_lookup_insertKV_isSome _ _ _ _ (hwf' e he he2))
+          simp only [hr]; exact ⟨_, rfl⟩
+
+theorem aux_fisherYates_total : ∀ (n : Nat) (l : List α) (d : Drv), ∃ r, fisherYates n l d = some r := by
+  intro n
+  induction n with
+  | zero => intro l d; exact ⟨_, rfl⟩
+  | succ i ih =>
+    intro l d
+    unfold fisherYates
+    obtain ⟨j, d1, hj⟩ := aux_nat_some d (lo := 0) (hi := i + 1) (Nat.zero_le _)
+    simp only [hj]
+    exact ih _ _
+
+theorem aux_removeAt_some [DecidableEq κ] : ∀ (m : KMap κ α) (k : κ) (q : List α) (idx : Nat),
+    (m.map Prod.fst).Nodup → (k, q) ∈ m → idx < q.length → ∃ r, removeAt k idx m = some r := by
+  intro m
+  induction m with
+  | nil => intro k q idx _ hm; simp at hm
+  | cons e rest ih =>
+    obtain ⟨k0, q0⟩ := e
+    intro k q idx hnd hm hidx
+    simp only [List.map_cons, List.nodup_cons] at hnd
+    unfold removeAt
+    split
+    · rename_i hk
+      subst hk
+      simp only [List.mem_cons, Prod.mk.injEq, true_and] at hm
+      rcases hm with rfl | hm
+      · obtain ⟨x, hx⟩ := aux_getElem?_some q hidx
+        simp only [hx]; exact ⟨_, rfl⟩
+      · exact absurd (List.mem_map.mpr ⟨(k0, q), hm, rfl⟩) hnd.1
+    · rename_i hk
+      simp only [List.mem_cons, Prod.mk.injEq] at hm
+      rcases hm with ⟨rfl, _⟩ | hm
+      · exact absurd rfl hk
+      · obtain ⟨r, hr⟩ := ih k q idx hnd.2 hm hidx
+        simp only [hr]; exact ⟨_, rfl⟩
+
+theorem aux_nonemptyKeys_mem {m : KMap κ α} {i : Nat} {k : κ} {n : Nat}
+    (h : (nonemptyKeys m)[i]? = some (k, n)) : ∃ q, (k, q) ∈ m ∧ q.length = n ∧ 0 < n := by
+  have hm := List.mem_of_getElem? h
+  simp only [nonemptyKeys, List.mem_map, List.mem_filter, Bool.not_eq_true', Prod.mk.injEq] at hm
+  obtain ⟨⟨k', q⟩, ⟨hmem, hne⟩, rfl, rfl⟩ := hm
+  refine ⟨q, hmem, rfl, ?_⟩
+  cases q with
+  | nil => simp at hne
+  | cons _ _ => simp
+
+theorem aux_candidates_mem {m1 m2 : KMap κ α} {i : Nat} {b : Bool} {k : κ}
+    (h : (candidates m1 m2)[i]? = some (b, k)) :
+    ∃ q, (k, q) ∈ (if b then m2 else m1) ∧ 0 < q.length := by
+  have hm := List.mem_of_getElem? h
+  simp only [candidates, List.mem_append, List.mem_map, List.mem_filter, Bool.not_eq_true', Prod.mk.injEq] at hm
+  rcases hm with ⟨⟨k', q⟩, ⟨hmem, hne⟩, rfl, rfl⟩ | ⟨⟨k', q⟩, ⟨hmem, hne⟩, rfl, rfl⟩
+  · refine ⟨q, by simpa using hmem, ?_⟩
+    cases q with
+    | nil => simp at hne
+    | cons _ _ => simp
+  · refine ⟨q, by simpa using hmem, ?_⟩
+    cases q with
+    | nil => simp at hne
+    | cons _ _ => simp
+
+/-- state invariants of the hash-map backed hooks (keys of a hash map are distinct; a
+`KeyedSingletonHook` key whose queue is empty has been released before — queues are created by
+`entry(k).or_default().push_back(v)` and only emptied by releasing) -/
+def Hook.WF [DecidableEq κ] : Hook κ α → Prop
+  | .keyedSingleton m _ last => ∀ e ∈ m, e.2 = [] → (lookup e.1 last).isSome = true
+  | .tlKeyedOrder m _ => (m.map Prod.fst).Nodup
+  | .tlPartial m _ => (m.map Prod.fst).Nodup
+  | .tlKeyedMerge m1 m2 _ => (m1.map Prod.fst).Nodup ∧ (m2.map Prod.fst).Nodup
+  | _ => True
+
+/-- `autonomous_decision` does not panic on a ready, well-formed hook, provided it is only forced
+when it can make a non-trivial decision (which is how `run_hooks` calls it) -/
+theorem hook_auto_total [DecidableEq κ] (h : Hook κ α) (d : Drv) (force : Bool)
+    (hwf : h.WF) (hready : h.ready = true) (hf : force = true → h.canNT = true) :
+    ∃ r, h.auto d force = some r := by
+  cases h with
+  | streamTotal q r =>
+    have hlo : (if force = true then 1 else 0) ≤ q.length := by
+      split
+      · rename_i hft
+        have := hf hft
+        cases q with
+        | nil => simp [Hook.canNT] at this
+        | cons _ _ => simp
+      · exact Nat.zero_le _
+    obtain ⟨c, d1, hc⟩ := aux_nat_some d hlo
+    exact ⟨_, by simp only [Hook.auto, streamTotalAuto, hc, Option.map_some]; rfl⟩
+  | streamNo q r =>
+    obtain ⟨⟨o, q', d'⟩, hl⟩ := aux_streamNoLoop_total q.length force q [] 0 d (fun h => List.length_pos_iff.mpr h)
+    exact ⟨_, by simp only [Hook.auto, streamNoAuto, hl, Option.map_some]; rfl⟩
+  | keyedTotal m r =>
+    obtain ⟨⟨o, m', d'⟩, hl⟩ := aux_keyedTotalLoop_total m (nonemptyKeyCount m) force d
+    exact ⟨_, by simp only [Hook.auto, keyedTotalAuto, hl, Option.map_some]; rfl⟩
+  | keyedNo m r =>
+    obtain ⟨⟨o, m', d'⟩, hl⟩ := aux_keyedNoLoop_total m (nonemptyKeyCount m) force d
+    exact ⟨_, by simp only [Hook.auto, keyedNoAuto, hl, Option.map_some]; rfl⟩
+  | singleton s =>
+    simp only [Hook.auto]
+    unfold singletonAuto
+    split
+    · rename_i hq
+      have hnf : force = false := by
+        cases force with
+        | false => rfl
+        | true => have := hf rfl; simp [Hook.canNT, hq] at this
+      simp only [Hook.ready, hq, Bool.not_true, Bool.false_or] at hready
+      obtain ⟨l, hl⟩ := Option.isSome_iff_exists.mp hready
+      simp only [hnf, Bool.false_eq_true, ↓reduceIte, hl, Option.map_some]
+      exact ⟨_, rfl⟩
+    · rename_i hq
+      rcases hsd : d.boolIf (!force && s.last.isSome) with ⟨rr, d1⟩
+      simp only
+      split
+      · rename_i hrr
+        have hsome : s.last.isSome = true := by
+          cases hl : s.last.isSome with
+          | true => rfl
+          | false => simp [hl, Drv.boolIf] at hsd; simp_all
+        obtain ⟨l, hl⟩ := Option.isSome_iff_exists.mp hsome
+        simp only [hl, Option.map_some]
+        exact ⟨_, rfl⟩
+      · have hlen : 0 < s.q.length := by
+          cases hqq : s.q with
+          | nil => simp [hqq] at hq
+          | cons _ _ => simp
+        obtain ⟨idx, d2, hidx⟩ := aux_natEx_some d1 hlen
+        have hr := aux_natEx_range hidx
+        have hdrop : s.q.drop idx = s.q[idx] :: s.q.drop (idx + 1) := List.drop_eq_getElem_cons hr.2
+        simp only [hidx, hdrop, Option.map_some]
+        exact ⟨_, rfl⟩
+  | passthrough q r last =>
+    simp only [Hook.auto]
+    unfold passthroughAuto
+    split
+    · simp only [Option.map_some]; exact ⟨_, rfl⟩
+    · rename_i hl
+      have hq : q = [] := by simpa [List.getLast?_eq_none_iff] using hl
+      subst hq
+      have hnf : force = false := by
+        cases force with
+        | false => rfl
+        | true => have := hf rfl; simp [Hook.canNT] at this
+      simp only [Hook.ready, List.isEmpty_nil, Bool.not_true, Bool.false_or] at hready
+      obtain ⟨l, hl⟩ := Option.isSome_iff_exists.mp hready
+      simp only [hnf, Bool.false_eq_true, ↓reduceIte, hl, Option.map_some]
+      exact ⟨_, rfl⟩
+  | keyedSingleton m r last =>
+    obtain ⟨⟨o, m', l', nt, d'⟩, hl⟩ := aux_keyedSingLoop_total m (nonemptyKeyCount m) force last d hwf
+    exact ⟨_, by simp only [Hook.auto, hl, Option.map_some]; rfl⟩
+  | tlOrder q r =>
+    simp only [Hook.auto]
+    unfold tlOrderAuto
+    split
+    · simp only [Option.map_some]; exact ⟨_, rfl⟩
+    · rename_i hq
+      rcases hsd : d.boolIf (!force) with ⟨skip, d1⟩
+      simp only
+      split
+      · simp only [Option.map_some]; exact ⟨_, rfl⟩
+      · have hlen : 0 < q.length := by
+          cases q with
+          | nil => simp at hq
+          | cons _ _ => simp
+        obtain ⟨idx, d2, hidx⟩ := aux_natEx_some d1 hlen
+        have hr := aux_natEx_range hidx
+        obtain ⟨x, hx⟩ := aux_getElem?_some q hr.2
+        simp only [hidx, hx, Option.map_some]
+        exact ⟨_, rfl⟩
+  | tlFold q r =>
+    simp only [Hook.auto]
+    unfold tlFoldAuto
+    split
+    · rename_i hq
+      have hnf : force = false := by
+        cases force with
+        | false => rfl
+        | true => have := hf rfl; simp [Hook.canNT, hq] at this
+      simp only [hnf, Bool.false_eq_true, ↓reduceIte, Option.map_some]
+      exact ⟨_, rfl⟩
+    · rcases hfs : foldSelect q [] [] d with ⟨sel, rem, d1⟩
+      simp only
+      obtain ⟨⟨sel', d2⟩, hfy⟩ := aux_fisherYates_total (sel.length - 1) sel d1
+      simp only [hfy, Option.map_some]
+      exact ⟨_, rfl⟩
+  | tlKeyedOrder m r =>
+    simp only [Hook.auto]
+    unfold tlKeyedOrderAuto
+    simp only
+    split
+    · simp only [Option.map_some]; exact ⟨_, rfl⟩
+    · rename_i hks
+      rcases hsd : d.boolIf (!force) with ⟨skip, d1⟩
+      simp only
+      split
+      · simp only [Option.map_some]; exact ⟨_, rfl⟩
+      · have hlen : 0 < (nonemptyKeys m).length := by
+          cases hk : nonemptyKeys m with
+          | nil => simp [hk] at hks
+          | cons _ _ => simp
+        obtain ⟨ki, d2, hki⟩ := aux_natEx_some d1 hlen
+        have hr := aux_natEx_range hki
+        obtain ⟨⟨key, qlen⟩, hx⟩ := aux_getElem?_some (nonemptyKeys m) hr.2
+        obtain ⟨q, hmem, hql, hpos⟩ := aux_nonemptyKeys_mem hx
+        obtain ⟨ii, d3, hii⟩ := aux_natEx_some d2 hpos
+        have hr2 := aux_natEx_range hii
+        obtain ⟨⟨item, m'⟩, hrem⟩ := aux_removeAt_some m key q ii hwf hmem (by omega)
+        simp only [hki, hx, hii, hrem, Option.map_some]
+        exact ⟨_, rfl⟩
+  | tlPartial m r =>
+    simp only [Hook.auto]
+    unfold tlPartialAuto
+    simp only
+    split
+    · simp only [Option.map_some]; exact ⟨_, rfl⟩
+    · rename_i hks
+      rcases hsd : d.boolIf (!force) with ⟨skip, d1⟩
+      simp only
+      split
+      · simp only [Option.map_some]; exact ⟨_, rfl⟩
+      · have hlen : 0 < (nonemptyKeys m).length := by
+          cases hk : nonemptyKeys m with
+          | nil => simp [hk] at hks
+          | cons _ _ => simp
+        obtain ⟨ki, d2, hki⟩ := aux_natEx_some d1 hlen
+        have hr := aux_natEx_range hki
+        obtain ⟨⟨key, qlen⟩, hx⟩ := aux_getElem?_some (nonemptyKeys m) hr.2
+        obtain ⟨q, hmem, hql, hpos⟩ := aux_nonemptyKeys_mem hx
+        obtain ⟨⟨item, m'⟩, hrem⟩ := aux_removeAt_some m key q 0 hwf hmem (by omega)
+        simp only [hki, hx, hrem, Option.map_some]
+        exact ⟨_, rfl⟩
+  | tlMerge q1 q2 r =>
+    simp only [Hook.auto]
+    unfold tlMergeAuto
+    split
+    · simp only [Option.map_some]; exact ⟨_, rfl⟩
+    · rename_i hq
+      rcases hsd : d.boolIf (!force) with ⟨skip, d1⟩
+      simp only
+      split
+      · simp only [Option.map_some]; exact ⟨_, rfl⟩
+      · split
+        · simp at hq
+        · simp only [Option.map_some]; exact ⟨_, rfl⟩
+        · simp only [Option.map_some]; exact ⟨_, rfl⟩
+        · rcases d1.bool with ⟨ts, d2⟩
+          simp only
+          split <;> (simp only [Option.map_some]; exact ⟨_, rfl⟩)
+  | tlKeyedMerge m1 m2 r =>
+    simp only [Hook.auto]
+    unfold tlKeyedMergeAuto
+    simp only
+    split
+    · simp only [Option.map_some]; exact ⟨_, rfl⟩
+    · rename_i hks
+      rcases hsd : d.boolIf (!force) with ⟨skip, d1⟩
+      simp only
+      split
+      · simp only [Option.map_some]; exact ⟨_, rfl⟩
+      · have hlen : 0 < (candidates m1 m2).length := by
+          cases hk : candidates m1 m2 with
+          | nil => simp [hk] at hks
+          | cons _ _ => simp
+        obtain ⟨ki, d2, hki⟩ := aux_natEx_some d1 hlen
+        have hr := aux_natEx_range hki
+        obtain ⟨⟨b, key⟩, hx⟩ := aux_getElem?_some (candidates m1 m2) hr.2
+        obtain ⟨q, hmem, hpos⟩ := aux_candidates_mem hx
+        simp only [hki, hx]
+        cases b with
+        | true =>
+          obtain ⟨⟨item, m'⟩, hrem⟩ := aux_removeAt_some m2 key q 0 hwf.2 (by simpa using hmem) hpos
+          simp only [↓reduceIte, hrem, Option.map_some]
+          exact ⟨_, rfl⟩
+        | false =>
+          obtain ⟨⟨item, m'⟩, hrem⟩ := aux_removeAt_some m1 key q 0 hwf.1 (by simpa using hmem) hpos
+          simp only [Bool.false_eq_true, ↓reduceIte, hrem, Option.map_some]
+          exact ⟨_, rfl⟩
+
+/-- `release_decision` does not panic once a decision is recorded -/
+theorem aux_release_some (h : Hook κ α) (hc : h.cur.isSome = true) : ∃ r, h.release = some r := by
+  cases h <;> simp only [Hook.cur, relNonempty, Option.isSome_map] at hc <;>
+    (obtain ⟨v, hv⟩ := Option.isSome_iff_exists.mp hc) <;>
+    simp [Hook.release, singletonRelease, hv]
+
+theorem aux_pass1_total [DecidableEq κ] : ∀ (hs : List (Hook κ α)) (made : Bool) (rem : Nat) (d : Drv),
+    (∀ h ∈ hs, h.cur = none ∧ h.WF ∧ h.ready = true) →
+    ∃ hs1 made1 rem1 d1, runPass1 hs made rem d = some (hs1, made1, rem1, d1) ∧
+      ∀ h ∈ hs1, h.cur = none → h.WF ∧ h.ready = true := by
+  intro hs
+  induction hs with
+  | nil => intro made rem d _; exact ⟨[], made, rem, d, rfl, by simp⟩
+  | cons h rest ih =>
+    intro made rem d hall
+    obtain ⟨hc, hwf, hready⟩ := hall h (List.mem_cons_self ..)
+    have hall' : ∀ x ∈ rest, x.cur = none ∧ x.WF ∧ x.ready = true := fun x hx => hall x (List.mem_cons_of_mem _ hx)
+    unfold runPass1
+    simp only [hc]
+    cases hcan : h.canNT with
+    | false =>
+      obtain ⟨⟨nt, h', d2⟩, ha⟩ := hook_auto_total h d false hwf hready (by simp)
+      obtain ⟨hs1, made1, rem1, d1, hrec, hinv⟩ := ih made (rem - 1) d2 hall'
+      simp only [Bool.not_false, ↓reduceIte, ha, hrec]
+      refine ⟨_, _, _, _, rfl, ?_⟩
+      intro x hx hxc
+      simp only [List.mem_cons] at hx
+      rcases hx with rfl | hx
+      · have := aux_auto_cur h ha; simp [hxc] at this
+      · exact hinv x hx hxc
+    | true =>
+      obtain ⟨hs1, made1, rem1, d1, hrec, hinv⟩ := ih made rem d hall'
+      simp only [Bool.not_true, Bool.false_eq_true, ↓reduceIte, hrec]
+      refine ⟨_, _, _, _, rfl, ?_⟩
+      intro x hx hxc
+      simp only [List.mem_cons] at hx
+      rcases hx with rfl | hx
+      · exact ⟨hwf, hready⟩
+      · exact hinv x hx hxc
+
+theorem aux_pass2_total [DecidableEq κ] : ∀ (hs : List (Hook κ α)) (made : Bool) (rem : Nat) (d : Drv),
+    QInv hs → (∀ h ∈ hs, h.cur = none → h.WF ∧ h.ready = true) → rem = undecided hs →
+    ∃ r, runPass2 hs made rem d = some r := by
+  intro hs
+  induction hs with
+  | nil => intro made rem d _ _ _; exact ⟨_, rfl⟩
+  | cons h rest ih =>
+    intro made rem d hq hinv hrem
+    have hqrest : QInv rest := fun x hx => hq x (List.mem_cons_of_mem _ hx)
+    have hinv' : ∀ x ∈ rest, x.cur = none → x.WF ∧ x.ready = true := fun x hx => hinv x (List.mem_cons_of_mem _ hx)
+    unfold runPass2
+    cases hc : h.cur with
+    | some b =>
+      have hu : undecided (h :: rest) = undecided rest := by simp [undecided, hc]
+      obtain ⟨⟨h2, out⟩, hrel⟩ := aux_release_some h (by simp [hc])
+      obtain ⟨⟨hs', outs, made', d'⟩, hrec⟩ := ih made rem d hqrest hinv' (by rw [hrem, hu])
+      simp only [hrel, hrec]
+      exact ⟨_, rfl⟩
+    | none =>
+      have hcan := hq h (List.mem_cons_self ..) hc
+      obtain ⟨hwf, hready⟩ := hinv h (List.mem_cons_self ..) hc
+      have hu : undecided (h :: rest) = undecided rest + 1 := by simp [undecided, hc, hcan]
+      obtain ⟨⟨nt, h1, d1⟩, ha⟩ := hook_auto_total h d (!made && rem == 1) hwf hready (fun _ => hcan)
+      have hne : (rem == 0) = false := by rw [hrem, hu]; simp
+      obtain ⟨⟨h2, out⟩, hrel⟩ := aux_release_some h1 (aux_auto_cur h ha)
+      obtain ⟨⟨hs', outs, made', d'⟩, hrec⟩ := ih (made || nt) (rem - 1) d1 hqrest hinv' (by rw [hrem, hu]; simp)
+      simp only [ha, hne, Bool.false_eq_true, ↓reduceIte, hrel, hrec]
+      exact ⟨_, rfl⟩
+
+/-- **F36 fixed.**  Every tick the scheduler may run (`SimTick::can_run`: all hooks ready, some hook
+able to release) whose hooks are idle and well-formed is resolved by `run_hooks` without a panic, for
+*every* choice tape: every hook — `PassthroughSingletonHook` with an empty buffer included, which now
+re-releases its last snapshot — records and releases a decision, and at least one of the decisions
+is non-trivial (a new item or a new snapshot). -/
+theorem runHooks_runnable_tick_releases [DecidableEq κ] (hs : List (Hook κ α)) (d : Drv)
+    (hidle : ∀ h ∈ hs, h.cur = none) (hwf : ∀ h ∈ hs, h.WF) (hcan : tickCanRun hs = true) :
+    ∃ hs' outs d', runHooks hs d = some (hs', outs, true, d') := by
+  have hready : ∀ h ∈ hs, h.ready = true := by
+    simp only [tickCanRun, Bool.and_eq_true, List.all_eq_true] at hcan
+    exact hcan.1
+  obtain ⟨hs1, made1, rem1, d1, h1, hinv⟩ := aux_pass1_total hs false hs.length d
+    (fun h hh => ⟨hidle h hh, hwf h hh, hready h hh⟩)
+  obtain ⟨_, hq, hu, hrem⟩ := aux_pass1 hs false hs.length d hidle h1
+  have hle := aux_canCount_le hs
+  obtain ⟨⟨hs', outs, made, d'⟩, h2⟩ := aux_pass2_total hs1 made1 rem1 d1 hq hinv (by rw [hrem, hu]; omega)
+  have hrun : runHooks hs d = some (hs', outs, made, d') := by
+    simp only [runHooks, h1, h2]
+  have := runHooks_some_nontrivial hidle hcan hrun
+  subst this
+  exact ⟨hs', outs, d', hrun⟩
+
+/-- the F36 witness (a tick made of a batch hook with pending items and the snapshot of a top-level
+commutative fold whose buffer is empty after the tick ran once): before the fix `run_hooks` panicked
+for every tape; now the batch is released and the snapshot re-released unchanged -/
+example : runHooks [Hook.streamTotal (κ := Nat) [20] none, .passthrough [] none (some 0)] ⟨[0], []⟩
+    = some ([.streamTotal [] none, .passthrough [] none (some 0)], [[.item 20], [.item 0]], true,
+        ⟨[], [.u 1 1 1]⟩) := by decide
+
+example : tickCanRun [Hook.streamTotal (κ := Nat) [20] none, .passthrough [] none (some 0)] = true := by decide
+
+/-- a tick is not runnable before the fold produced its first value (`is_ready`) -/
+example : tickCanRun [Hook.streamTotal (κ := Nat) [20] none, .passthrough [] none none] = false := by decide
+
+
+/-! ### PassthroughSingletonHook (fixed code): snapshot versions over every history -/
+
+/-- one decision + release of a `PassthroughSingletonHook`: no driver call is made; the released
+snapshot is the newest buffered one (the whole buffer is consumed) or, on an empty buffer, the last
+released one again -/
+theorem passthrough_release_shape [DecidableEq κ] {q : List α} {r : Option (α × Bool)} {last : Option α}
+    {d d' : Drv} {force nt : Bool} {h1 h2 : Hook κ α} {out : List (Msg κ α)}
+    (ha : (Hook.passthrough q r last).auto d force = some (nt, h1, d')) (hr : h1.release = some (h2, out)) :
+    d' = d ∧ ∃ x, out = [.item x] ∧
+      ((nt = false ∧ q = [] ∧ last = some x ∧ h2 = .passthrough [] none (some x)) ∨
+       (nt = true ∧ ∃ skipped, q = skipped ++ [x] ∧ h2 = .passthrough [] none (some x))) := by
+  simp only [Hook.auto, Option.map_eq_some_iff] at ha
+  obtain ⟨⟨nt1, q1, x1, b1⟩, hh, heq⟩ := ha
+  simp only [Prod.mk.injEq] at heq
+  obtain ⟨rfl, rfl, rfl⟩ := heq
+  simp only [Hook.release, Option.map_some, Option.some.injEq, Prod.mk.injEq] at hr
+  obtain ⟨rfl, rfl⟩ := hr
+  refine ⟨rfl, x1, rfl, ?_⟩
+  unfold passthroughAuto at hh
+  split at hh
+  · rename_i item hl
+    simp only [Option.some.injEq, Prod.mk.injEq] at hh
+    obtain ⟨rfl, rfl, rfl, rfl⟩ := hh
+    obtain ⟨ys, rfl⟩ := List.getLast?_eq_some_iff.mp hl
+    exact Or.inr ⟨rfl, ys, rfl, rfl⟩
+  · rename_i hl
+    have hq : q = [] := by simpa [List.getLast?_eq_none_iff] using hl
+    subst hq
+    split at hh
+    · simp at hh
+    · split at hh
+      · simp only [Option.some.injEq, Prod.mk.injEq] at hh
+        obtain ⟨rfl, rfl, rfl, rfl⟩ := hh
+        exact Or.inl ⟨rfl, rfl, rfl, rfl⟩
+      · simp at hh
+
+/-- a history of a passthrough hook's buffer: the fold pushes successive accumulator values, the
+scheduler decides and releases (`SingSt` is reused for (buffer, last_released)) -/
+def pStep (h : SHist β) : SOp β → Option (SHist β)
+  | .push b => some { h with st := { h.st with q := h.st.q ++ [(h.next, b)] }, next := h.next + 1 }
+  | .decide tape force =>
+    match (Hook.passthrough (κ := Unit) h.st.q none h.st.last).auto ⟨tape, []⟩ force with
+    | none => none
+    | some (_, h1, _) =>
+      match h1.release with
+      | some (.passthrough q' _ last', [.item x]) =>
+        some { h with st := { q := q', last := last' }, released := h.released ++ [x] }
+      | _ => none
+
+def pRun (h : SHist β) : List (SOp β) → SHist β
+  | [] => h
+  | op :: ops => match pStep h op with
+    | none => h
+    | some h' => pRun h' ops
+
+theorem aux_pStep_inv {h h' : SHist β} {op : SOp β} (hi : SHistInv h) (hs : pStep h op = some h') :
+    SHistInv h' := by
+  cases op with
+  | push b => exact aux_sStep_inv (op := .push b) hi hs
+  | decide tape force =>
+    simp only [pStep] at hs
+    split at hs
+    · simp at hs
+    · rename_i nt h1 d1 hauto
+      split at hs
+      · rename_i q' r' last' x hrel
+        simp only [Option.some.injEq] at hs
+        subst hs
+        obtain ⟨_, y, hy, hshape⟩ := passthrough_release_shape hauto hrel
+        simp only [List.cons.injEq, Msg.item.injEq, and_true] at hy
+        subst hy
+        rcases hshape with ⟨_, hq, hl, heq⟩ | ⟨_, skipped, hq, heq⟩
+        · simp only [Hook.passthrough.injEq] at heq
+          obtain ⟨rfl, _, rfl⟩ := heq
+          exact aux_release_inv hi rfl (Or.inl ⟨hl, hq.symm⟩)
+        · simp only [Hook.passthrough.injEq] at heq
+          obtain ⟨rfl, _, rfl⟩ := heq
+          exact aux_release_inv hi rfl (Or.inr ⟨skipped, hq⟩)
+      · simp at hs
+
+theorem aux_pRun_inv (ops : List (SOp β)) : ∀ (h : SHist β), SHistInv h → SHistInv (pRun h ops) := by
+  induction ops with
+  | nil => intro h hi; exact hi
+  | cons op ops ih =>
+    intro h hi
+    simp only [pRun]
+    split
+    · exact hi
+    · rename_i h' hs; exact ih h' (aux_pStep_inv hi hs)
+
+/-- over every history of pushes and decisions, the versions of the snapshots a (fixed)
+`PassthroughSingletonHook` releases never decrease — re-releases of the unchanged snapshot included -/
+theorem passthrough_snapshot_version_monotone (ops : List (SOp β)) :
+    ((pRun ({} : SHist β) ops).released.map Prod.fst).Pairwise (· ≤ ·) :=
+  (aux_pRun_inv ops {} (by simp [SHistInv])).2.2.2.1
+
+example : (pRun ({} : SHist String) [.push "a", .push "b", .decide [] false, .decide [] false,
+    .push "c", .decide [] true]).released = [(1, "b"), (1, "b"), (2, "c")] := by decide
+
+/-! ### what `run_hooks` does to each hook of the list is one decision + release of that hook -/
+
+/-- `h'`, `out` are the state and the output of hook `h` after one `autonomous_decision` (for some
+driver state and forcing flag) followed by `release_decision` -/
+def HookStep [DecidableEq κ] (h h' : Hook κ α) (out : List (Msg κ α)) : Prop :=
+  ∃ d f nt h1 d', h.auto d f = some (nt, h1, d') ∧ h1.release = some (h', out)
+
+inductive Steps [DecidableEq κ] : List (Hook κ α) → List (Hook κ α) → List (List (Msg κ α)) → Prop
+  | nil : Steps [] [] []
+  | cons {h h' out hs hs' outs} : HookStep h h' out → Steps hs hs' outs →
+      Steps (h :: hs) (h' :: hs') (out :: outs)
+
+/-- first pass: a hook is left alone or has taken its (unforced) decision -/
+inductive Pass1Rel [DecidableEq κ] : List (Hook κ α) → List (Hook κ α) → Prop
+  | nil : Pass1Rel [] []
+  | same {h hs hs1} : h.cur = none → Pass1Rel hs hs1 → Pass1Rel (h :: hs) (h :: hs1)
+  | decided {h h1 hs hs1} {d d' : Drv} {nt : Bool} : h.auto d false = some (nt, h1, d') →
+      Pass1Rel hs hs1 → Pass1Rel (h :: hs) (h1 :: hs1)
+
+theorem aux_pass1_rel [DecidableEq κ] : ∀ (hs : List (Hook κ α)) (made : Bool) (rem : Nat) (d : Drv)
+    {hs1 : List (Hook κ α)} {made1 : Bool} {rem1 : Nat} {d1 : Drv},
+    (∀ h ∈ hs, h.cur = none) → runPass1 hs made rem d = some (hs1, made1, rem1, d1) → Pass1Rel hs hs1 := by
+  intro hs
+  induction hs with
+  | nil =>
+    intro made rem d hs1 made1 rem1 d1 _ h
+    simp only [runPass1, Option.some.injEq, Prod.mk.injEq] at h
+    obtain ⟨rfl, _⟩ := h
+    exact .nil
+  | cons h rest ih =>
+    intro made rem d hs1 made1 rem1 d1 hidle hrun
+    have hc : h.cur = none := hidle h (List.mem_cons_self ..)
+    have hidle' : ∀ x ∈ rest, x.cur = none := fun x hx => hidle x (List.mem_cons_of_mem _ hx)
+    unfold runPass1 at hrun
+    simp only [hc] at hrun
+    split at hrun
+    · split at hrun
+      · simp at hrun
+      · rename_i nt h' d2 ha
+        split at hrun
+        · simp at hrun
+        · rename_i hrec
+          simp only [Option.some.injEq, Prod.mk.injEq] at hrun
+          obtain ⟨rfl, _⟩ := hrun
+          exact .decided ha (ih _ _ _ hidle' hrec)
+    · split at hrun
+      · simp at hrun
+      · rename_i hrec
+        simp only [Option.some.injEq, Prod.mk.injEq] at hrun
+        obtain ⟨rfl, _⟩ := hrun
+        exact .same hc (ih _ _ _ hidle' hrec)
+
+theorem aux_pass2_steps [DecidableEq κ] : ∀ (hs hs1 : List (Hook κ α)) (made : Bool) (rem : Nat) (d : Drv)
+    {hs' : List (Hook κ α)} {outs : List (List (Msg κ α))} {made' : Bool} {d' : Drv},
+    Pass1Rel hs hs1 → runPass2 hs1 made rem d = some (hs', outs, made', d') → Steps hs hs' outs := by
+  intro hs hs1 made rem d hs' outs made' d' hrel
+  induction hrel generalizing made rem d hs' outs made' d' with
+  | nil =>
+    intro h
+    simp only [runPass2, Option.some.injEq, Prod.mk.injEq] at h
+    obtain ⟨rfl, rfl, _⟩ := h
+    exact .nil
+  | @same h hs hs1 hc _ ih =>
+    intro hrun
+    unfold runPass2 at hrun
+    simp only [hc] at hrun
+    cases ha : h.auto d (!made && rem == 1) with
+    | none => simp [ha] at hrun
+    | some res =>
+      obtain ⟨nt, h1, d1⟩ := res
+      simp only [ha] at hrun
+      split at hrun
+      · simp at hrun
+      · rename_i hstep
+        split at hstep
+        · simp at hstep
+        · simp only [Option.some.injEq, Prod.mk.injEq] at hstep
+          obtain ⟨rfl, rfl, rfl, rfl⟩ := hstep
+          split at hrun
+          · simp at hrun
+          · rename_i h2 out hrl
+            split at hrun
+            · simp at hrun
+            · rename_i hrec
+              simp only [Option.some.injEq, Prod.mk.injEq] at hrun
+              obtain ⟨rfl, rfl, _⟩ := hrun
+              exact .cons ⟨d, _, nt, h1, d1, ha, hrl⟩ (ih _ _ _ hrec)
+  | @decided h h1 hs hs1 d0 d0' nt0 ha0 _ ih =>
+    intro hrun
+    have hsome := aux_auto_cur h ha0
+    obtain ⟨b, hb⟩ := Option.isSome_iff_exists.mp hsome
+    unfold runPass2 at hrun
+    simp only [hb] at hrun
+    split at hrun
+    · simp at hrun
+    · rename_i h2 out hrl
+      split at hrun
+      · simp at hrun
+      · rename_i hrec
+        simp only [Option.some.injEq, Prod.mk.injEq] at hrun
+        obtain ⟨rfl, rfl, _⟩ := hrun
+        exact .cons ⟨d0, false, nt0, h1, d0', ha0, hrl⟩ (ih _ _ _ hrec)
+
+/-- Whatever `run_hooks` does on an idle hook list, it does hook by hook: the final state and the
+output of the `i`-th hook are those of one `autonomous_decision` + `release_decision` of that hook.
+Every per-hook theorem of this file (prefix / sub-multiset / per key / permutation / snapshot shape)
+therefore applies to each component of `run_hooks`' result. -/
+theorem runHooks_is_hookwise [DecidableEq κ] {hs hs' : List (Hook κ α)} {d d' : Drv}
+    {outs : List (List (Msg κ α))} {made : Bool}
+    (hidle : ∀ h ∈ hs, h.cur = none) (hrun : runHooks hs d = some (hs', outs, made, d')) :
+    Steps hs hs' outs := by
+  unfold runHooks at hrun
+  split at hrun
+  · simp at hrun
+  · rename_i hs1 made1 rem1 d1 h1
+    exact aux_pass2_steps hs hs1 made1 rem1 d1 (aux_pass1_rel hs false hs.length d hidle h1) hrun
+
+/-- … in particular nothing is lost and nothing is released twice by a whole tick: for every
+stream-releasing hook of the tick, output ++ still-pending is a permutation of what was pending -/
+theorem runHooks_nothing_lost_nothing_twice [DecidableEq κ] [DecidableEq α] {hs hs' : List (Hook κ α)}
+    {outs : List (List (Msg κ α))} (hst : Steps hs hs' outs) :
+    ∀ (i : Nat) (h : Hook κ α) (h' : Hook κ α) (out : List (Msg κ α)),
+      hs[i]? = some h → hs'[i]? = some h' → outs[i]? = some out → h.streamLike = true →
+      (msgItems out ++ h'.pending).Perm h.pending := by
+  induction hst with
+  | nil => intro i h h' out hh; simp at hh
+  | @cons h0 h0' out0 hs hs' outs hstep _ ih =>
+    intro i h h' out hh hh' ho hsl
+    cases i with
+    | zero =>
+      simp only [List.getElem?_cons_zero, Option.some.injEq] at hh hh' ho
+      subst hh; subst hh'; subst ho
+      obtain ⟨d, f, nt, h1, d', ha, hr⟩ := hstep
+      exact released_plus_remaining_perm _ hsl ha hr
+    | succ j =>
+      simp only [List.getElem?_cons_succ] at hh hh' ho
+      exact ih j h h' out hh hh' ho hsl
+
 
 /-! ### non-vacuity: concrete instances of the hypotheses above -/
 
